@@ -122,22 +122,73 @@ def _lean_str(x):
     return '"' + x.replace('\\', '\\\\').replace('"', '\\"').replace('\n', '\\n') + '"'
 
 
-def _fstring_affixes(method):
-    """(prefix, suffix) of the f-strings in a `serialize` method: the leading and trailing
-    literal parts.  Several f-strings must agree; otherwise an '<<inconsistent…>>' marker is
-    emitted so that the theorems over the tables stop checking."""
+def _called_helpers(node, module, cls, seen):
+    """definitions (module-level functions, methods of the same class) called from `node`"""
+    out = []
+    for n in ast.walk(node):
+        if not isinstance(n, ast.Call):
+            continue
+        target = None
+        if isinstance(n.func, ast.Name) and module is not None:
+            target = next((d for d in module.body if isinstance(d, ast.FunctionDef) and d.name == n.func.id), None)
+        elif isinstance(n.func, ast.Attribute) and isinstance(n.func.value, ast.Name) \
+                and n.func.value.id in ('self', 'cls') and cls is not None:
+            target = _find_method(cls, n.func.attr)
+        if target is not None and id(target) not in seen:
+            seen.add(id(target))
+            out.append(target)
+    return out
+
+
+def _string_affixes_in(node):
+    """(prefix, suffix) candidates built in `node`: f-strings, and `'lit' + … + 'lit'` concatenations"""
     found = []
-    if method is None:
-        return ('<<missing>>', '<<missing>>')
-    for n in ast.walk(method):
+    for n in ast.walk(node):
         if isinstance(n, ast.JoinedStr) and n.values:
             first, last = n.values[0], n.values[-1]
             pre = first.value if isinstance(first, ast.Constant) and isinstance(first.value, str) else ''
             suf = last.value if (len(n.values) > 1 and isinstance(last, ast.Constant)
                                  and isinstance(last.value, str)) else ''
-            # only the tag-building f-strings (they start with '!')
-            if pre.startswith('!') or not found:
-                found.append((pre, suf))
+            found.append((pre, suf))
+        elif isinstance(n, ast.BinOp) and isinstance(n.op, ast.Add):
+            # flatten a + b + c
+            parts = []
+
+            def flat(x):
+                if isinstance(x, ast.BinOp) and isinstance(x.op, ast.Add):
+                    flat(x.left)
+                    flat(x.right)
+                else:
+                    parts.append(x)
+            flat(n)
+            if len(parts) >= 2 and isinstance(parts[0], ast.Constant) and isinstance(parts[0].value, str):
+                last = parts[-1]
+                suf = last.value if isinstance(last, ast.Constant) and isinstance(last.value, str) else ''
+                found.append((parts[0].value, suf))
+    return found
+
+
+def _fstring_affixes(method, module=None, cls=None):
+    """(prefix, suffix) of the tag strings a `serialize` method builds: the leading and trailing literal parts of
+    its f-strings (or string concatenations), looked for in the method itself and — when it delegates — in the
+    module-level functions / methods of its class that it calls (three levels deep).  Several tag strings must
+    agree; otherwise an '<<inconsistent…>>' marker is emitted so that the theorems over the tables stop
+    checking."""
+    if method is None:
+        return ('<<missing>>', '<<missing>>')
+    seen = {id(method)}
+    level = [method]
+    found = []
+    for _ in range(4):
+        for node in level:
+            found.extend(_string_affixes_in(node))
+        tags = [f for f in found if f[0].startswith('!')]
+        if tags:
+            found = tags
+            break
+        level = [h for node in level for h in _called_helpers(node, module, cls, seen)]
+        if not level:
+            break
     found = [f for f in found if f[0].startswith('!')] or found
     if not found:
         return ('<<missing>>', '<<missing>>')
@@ -176,7 +227,7 @@ def _extract_serialize(info, init):
     for key, cname in (('units', 'UnitsSerializer'), ('quantity', 'QuantitySerializer'),
                        ('function', 'FunctionSerializer'), ('process', 'ProcessSerializer')):
         cls = _find_class(ser, cname)
-        out[key] = _fstring_affixes(_find_method(cls, 'serialize') if cls else None)
+        out[key] = _fstring_affixes(_find_method(cls, 'serialize') if cls else None, ser, cls)
     info['serialize_tags'] = out
     info['units_regex'] = _regex_source(_find_class(ser, 'UnitsSerializer'))
     info['serializer_order'] = _serializer_order(init)
